@@ -114,11 +114,14 @@ pub fn walk_expr<'a>(e: &'a Expr, tail: bool, f: &mut dyn FnMut(Node<'a>)) {
             }
         }
         Expr::IfExpr { clauses, else_ } => {
+            // an if-expression yields one value, but when a rule folds it to one of its branches
+            // (statically known condition) that branch lands in the position of the whole
+            // expression: branches inherit `tail` (used by the known-finding predicates only)
             for (c, v) in clauses {
                 walk_expr(c, false, f);
-                walk_expr(v, false, f);
+                walk_expr(v, tail, f);
             }
-            walk_expr(else_, false, f);
+            walk_expr(else_, tail, f);
         }
         Expr::Interp(segs) => {
             for s in segs {
